@@ -1939,11 +1939,15 @@ def chained_logic(
 
 def optimize_or(left: SymbolicExpression, right: SymbolicExpression) -> OR:
 
+    # a predicate / symbolic function is itself a variable that is instantiated from its arguments, the variables
+    # a side ranges over are the ones that have a domain
     left_vars = left._unique_variables_.filter(
         lambda v: not isinstance(v.value, Literal)
+        and not v.value._should_be_instantiated_
     )
     right_vars = right._unique_variables_.filter(
         lambda v: not isinstance(v.value, Literal)
+        and not v.value._should_be_instantiated_
     )
     if set(left_vars.unwrapped_values) == set(right_vars.unwrapped_values):
         return ElseIf(left, right)
